@@ -317,7 +317,11 @@ def check_success_iff_no_error(ctx, num=5):
     kill = P.fn(CT, "Container.kill")
     gen = P.fn(CT, "Container._tick_generator")
     ctx.touch(kill)
-    for fn_, c in package_calls(P, "_mark_completed"):
+    mcalls = package_calls(P, "_mark_completed")
+    ctx.count_min("error-free _mark_completed() calls in the tick generator (a container whose last operator completed must end)",
+                  len([c for fn_, c in mcalls if same_fn(fn_, gen) and not c.args and not c.keywords]), 1)
+    ctx.count_min("_mark_completed(error) calls in Container.kill", len([c for fn_, c in mcalls if same_fn(fn_, kill)]), 1)
+    for fn_, c in mcalls:
         err = norm.kwarg(c, "error", 0)
         if same_fn(fn_, kill):
             kp = kill.params()
@@ -343,10 +347,22 @@ def check_success_iff_no_error(ctx, num=5):
             ctx.ob(num, "K1", "_mark_completed is called only from the tick generator (success) and kill() (failure)", False, fn_, c,
                    detail=f"called in {fn_.mod.rel}::{fn_.qual}")
     # _completed writers
-    for w in attr_writes(P, "_completed"):
+    cw = attr_writes(P, "_completed")
+    for w in cw:
         who = w.fn.qual
         ok = who in ("Container.__init__", "Container._mark_completed")
         ctx.ob(num, "K1", "the ended flag of a container is set only by _mark_completed", ok, w.fn, w.node, detail=who)
+    # ... and _mark_completed does record the outcome: it stores the error it was given and sets the ended flag
+    ew = [w for w in attr_writes(P, "error", include_mutation=False) if same_fn(w.fn, mc)]
+    ctx.ob(num, "K6", "_mark_completed stores the error it was given (the outcome of the container is recorded)", len(ew) >= 1, mc, ew[0].node if ew else mc.node,
+           construct="self.error = error in _mark_completed", detail=f"{[stmt_text(w.node) for w in ew]}")
+    sw = [w for w in cw if same_fn(w.fn, mc) and isinstance(w.node, ast.Assign) and isinstance(w.node.value, ast.Constant) and w.node.value.value is True]
+    ctx.ob(num, "K6", "_mark_completed sets the ended flag (is_completed() becomes true, the pool collects the container)", len(sw) >= 1, mc, sw[0].node if sw else mc.node,
+           construct="self._completed = True in _mark_completed", detail=f"{[stmt_text(w.node) for w in cw if same_fn(w.fn, mc)]}")
+    ic = P.fn(CT, "Container.is_completed")
+    rs2 = [r for r in own_nodes(ic.node) if isinstance(r, ast.Return)]
+    ctx.ob(num, "K5", "is_completed() is exactly the ended flag", len(rs2) == 1 and rs2[0].value is not None and norm.U(rs2[0].value) == "self._completed", ic, rs2[0] if rs2 else ic.node,
+           detail=f"{[stmt_text(r) for r in rs2]}")
 
 
 def check_validation_order(ctx, num=6):
